@@ -201,6 +201,23 @@ fn check_tree(vars: &[(Name, Val)], e: &E, alt: Option<&E>) -> Result<(bool, Vec
             labels.push("expression raises a BASIC error");
         }
     }
+    // 1b. the same expression compiled as part of a stored program (typed variables survive RUN
+    // only when re-assigned, so the line carries the setup)
+    {
+        let l10 = format!("10 {}:PRINT {}", setup_line(vars), src);
+        if l10.len() <= 900 {
+            let mut t2 = Term::new();
+            let _ = run_line(&mut t2, &l10);
+            let got_p = run_line(&mut t2, "RUN");
+            let ok = match &want {
+                Ok(v) => printed_matches(&got_p, v, fl.approx),
+                Err(f) => matches_fault(&got_p.replace(" IN 10", ""), f),
+            };
+            if !ok {
+                return Err(("value-in-a-program-line".into(), ctx(&format!("{} / RUN", l10), &got_p, &got)));
+            }
+        }
+    }
     // 2. any legal parenthesisation prints the same
     if let Some(a) = alt {
         let asrc = render(a);
